@@ -71,6 +71,21 @@ Section Gates.
         apply_displacement cops d (cmul o (creal o p) (cexpi (o0 o) (o1 o))) modes s
     end.
 
+  (* the same dispatch, as data: which simulation step with which blocks *)
+  Definition lop_of (i : op) : lop (A := Cx B) :=
+    match i with
+    | OGate g e modes =>
+        match active_block g e with
+        | None => LPassive (passive_block g e) modes
+        | Some Am => LLinear (passive_block g e) Am modes
+        end
+    | OInterferometer T modes => LPassive T modes
+    | OTransform P Am modes => LLinear P Am modes
+    | ODisplacement r c sn modes => LDisp (cmul o (creal o r) (cexpi c sn)) modes
+    | OPositionDisplacement x modes => LDisp (cmul o (creal o x) (cexpi (o1 o) (o0 o))) modes
+    | OMomentumDisplacement p modes => LDisp (cmul o (creal o p) (cexpi (o0 o) (o1 o))) modes
+    end.
+
   Definition run (d : nat) (prog : list op) (s : gstate (A := Cx B)) : gstate (A := Cx B) :=
     fold_left (fun s i => step d i s) prog s.
 
